@@ -110,8 +110,18 @@ def vrun(coro_fn):
 
 
 # ------------------------------------------------------------------ names
+NAMING = {}     # component -> name, for the components that are not called c<number> in the run at hand (see short_names)
+SHORT = ["a", "e", "x", "t", "n", "l", "p", "o", "s", "r", "ex", "te", "al", "po", "se", "xt", "na", "er", "ose", "ern", "ext", "pos"]
+
+
+def short_names(cfg):
+    """names of one to three letters, many of them parts of other names and of the words "external" / "expose" """
+    comps = sorted({c for l in cfg.values() for (c, _) in l["order"]})
+    return {c: SHORT[i] for i, c in enumerate(comps) if i < len(SHORT)}
+
+
 def cname(k):
-    return "external" if k == EXT else ("expose" if k == EXP else f"c{k}")
+    return "external" if k == EXT else ("expose" if k == EXP else NAMING.get(k, f"c{k}"))
 
 
 def pname(k):
@@ -119,7 +129,14 @@ def pname(k):
 
 
 def cid(name):
-    return EXT if name == "external" else (EXP if name == "expose" else int(name[1:]))
+    if name == "external":
+        return EXT
+    if name == "expose":
+        return EXP
+    for k, v in NAMING.items():
+        if v == name:
+            return k
+    return int(name[1:])
 
 
 def pid_(name):
@@ -129,6 +146,13 @@ def pid_(name):
 # ------------------------------------------------------------------ table devices (mirror of table_dev)
 def hsh(seed, c, n, p):
     return (seed * 7919 + c * 104729 + n * 1299709 + p * 15485863) % 1000
+
+
+NONE_VALUE = -777_777     # how Python's None appears in the models and in everything recorded: a value like any other
+
+
+def nz(v):
+    return NONE_VALUE if v is None else v
 
 
 def table_dev(params, c, n, time, inputs):
@@ -143,6 +167,8 @@ def table_dev(params, c, n, time, inputs):
             outs[p] = c * 10 + p
         else:
             outs[p] = (n * 1000 + c * 10 + p + insum * 7) % 1000000
+        if hsh(seed, c, n, p + 20) % 9 == 0:
+            outs[p] = NONE_VALUE          # Python's None (TDev hands the device's report on with None in its place)
     h2 = hsh(seed, c, n, 7)
     if policy == 1:
         ca = time + period
@@ -162,6 +188,7 @@ def table_dev(params, c, n, time, inputs):
 TRACE = []
 TRACE_RT = []   # virtual real time (ns) of each TRACE entry
 REG = {}
+SLOW = {}      # device -> seconds of wall-clock time each of its updates takes (set by a check around a run, cleared after it)
 TICKLOG = []   # (scheduler object, time, sorted roots, real ns at start)
 
 
@@ -189,13 +216,16 @@ def make_classes():
 
         def update(self, time, inputs):
             self.n += 1
-            ins = {pid_(k): v for k, v in inputs.items()}
+            ins = {pid_(k): nz(v) for k, v in inputs.items()}
             TRACE.append((self.c, int(time), ins))
             TRACE_RT.append(asyncio.get_event_loop().time_ns())
             if self.fail_at is not None and self.n == self.fail_at:
                 raise failure(self.c, self.n, f"device c{self.c} fails at update {self.n}")
+            if SLOW.get(self.c):
+                import time as _time
+                _time.sleep(SLOW[self.c])          # a device that takes real (wall-clock) time to compute
             outs, ca = table_dev(self.params, self.c, self.n, int(time), ins)
-            return DeviceUpdate({pname(p): v for p, v in outs.items()}, None if ca is None else SimTime(ca))
+            return DeviceUpdate({pname(p): (None if v == NONE_VALUE else v) for p, v in outs.items()}, None if ca is None else SimTime(ca))
 
     class RDC(DeviceComponent):
         async def run_forever(self, *a, **k):
@@ -252,7 +282,19 @@ def reset_bus():
     s._subscribers.clear()
 
 
-def run_internal(cfg, devs, speed=(1, 1), initial=0, stim=(), t_end=3_000_000_003, fail=None, adapters=None,
+def run_internal(cfg, devs, speed=(1, 1), initial=0, stim=(), t_end=3_000_000_003, fail=None, adapters=None, **kw):
+    """see _run_internal; naming="short" runs the simulation with the components named by short_names(cfg)"""
+    naming = kw.pop("naming", None)
+    NAMING.clear()
+    if naming == "short":
+        NAMING.update(short_names(cfg))
+    try:
+        return _run_internal(cfg, devs, speed, initial, stim, t_end, fail, adapters, **kw)
+    finally:
+        NAMING.clear()
+
+
+def _run_internal(cfg, devs, speed=(1, 1), initial=0, stim=(), t_end=3_000_000_003, fail=None, adapters=None,
                  on_start=None, inject=None, delays=None, early=None, bus=None):
     """runs the simulation on the internal bus; stim: [(real ns, device id)]; returns dict:
        per: {device: [(time, inputs)]}, error: None|str, tasks info"""
@@ -389,7 +431,12 @@ def run_internal(cfg, devs, speed=(1, 1), initial=0, stim=(), t_end=3_000_000_00
                         return
                     info["inj"] = dict(real=lp.time_ns(), pos=len(TRACE), step=inject[0],
                                        started=hasattr(sched, "ticker") and hasattr(sched.ticker, "time"))
-                    lp.create_task(comp.raise_interrupt())
+
+                    async def _raise():
+                        info["inj"]["pos"] = len(TRACE)     # the updates that had happened when the interrupt is actually raised
+                        await comp.raise_interrupt()
+
+                    lp.create_task(_raise())
 
             loop.step_hook = hook
         for (r, who) in stim:
@@ -456,9 +503,9 @@ def run_internal(cfg, devs, speed=(1, 1), initial=0, stim=(), t_end=3_000_000_00
                 continue
             msg = ev[2]
             if isinstance(msg, Input):
-                item = ("in", cid(msg.target), int(msg.time), {pid_(k): v for k, v in msg.changes.items()})
+                item = ("in", cid(msg.target), int(msg.time), {pid_(k): nz(v) for k, v in msg.changes.items()})
             elif isinstance(msg, Output):
-                item = ("out", cid(msg.source), int(msg.time), {pid_(k): v for k, v in msg.changes.items()},
+                item = ("out", cid(msg.source), int(msg.time), {pid_(k): nz(v) for k, v in msg.changes.items()},
                         None if msg.call_at is None else int(msg.call_at))
             elif isinstance(msg, Skip):
                 item = ("skip", cid(msg.source), int(msg.time))
@@ -634,21 +681,17 @@ def alert_events(cfg, events, sys_level):
                 out.append(("ESkip", level_of[c], c))
             elif isinstance(msg, Output) and kind_of.get(c) not in (None, "dev"):
                 out.append(("EDone", level_of[c], c, kind_of[c], None if msg.call_at is None else int(msg.call_at)))
+            elif isinstance(msg, Output) and kind_of.get(c) == "dev":
+                # the device has just computed (its handler runs device.update and publishes the Output without suspending in
+                # between; the Input may have been handed to the handler some loop steps earlier)
+                out.append(("EInDev", level_of[c], c, None if msg.call_at is None else int(msg.call_at)))
             elif not isinstance(msg, (Input, Output)):
                 return None
         elif kind == "deliver":
             c, suf = topic_comp(ev[1])
             msg = ev[2]
-            if isinstance(msg, Input) and kind_of.get(c) == "dev":
-                # the device computes and publishes its Output before its handler first suspends: the next Output on its topic
-                ca = "missing"
-                for later in events[i + 1:]:
-                    if later[0] == "produce" and isinstance(later[2], Output) and topic_comp(later[1])[0] == c:
-                        ca = None if later[2].call_at is None else int(later[2].call_at)
-                        break
-                if ca == "missing":
-                    return None
-                out.append(("EInDev", level_of[c], c, ca))
+            if isinstance(msg, Input):
+                pass                                     # what the component does with it shows when it publishes / starts its tick
             elif isinstance(msg, Interrupt):
                 lv = level_of[c]
                 if lv == 1:
